@@ -113,3 +113,574 @@ def Term.decEqList : (a b : List Term) → Decidable (a = b)
       | isTrue h2 => isTrue (by subst_vars; rfl)
 end
 instance : DecidableEq Term := Term.decEq
+
+/-! ## Byte strings and literals -/
+
+abbrev Bytes := List UInt8
+
+/-- `felt.SetBytes`: big-endian number (the reduction mod P only matters for ≥ 32-byte strings). -/
+def bytesToNat (bs : Bytes) : Nat := bs.foldl (fun acc b => acc * 256 + b.toNat) 0
+
+def asciiBytes (s : String) : Bytes := s.toList.map (fun c => UInt8.ofNat c.toNat)
+
+/-- `new(felt.Felt).SetBytes([]byte(s))` for an ASCII constant. -/
+def strFelt (s : String) : Term := .felt (bytesToNat (asciiBytes s))
+
+def u64 (x : UInt64) : Term := .felt x.toNat
+def len (xs : List α) : Term := .felt xs.length
+
+/-! ## Protocol version (`core/version.go`) -/
+
+/-- `strings.Split(s, ".")` on bytes: always at least one part. -/
+def splitDots : Bytes → List Bytes
+  | [] => [[]]
+  | b :: rest =>
+    match splitDots rest with
+    | [] => [[b]]            -- unreachable
+    | p :: ps => if b = 46 then [] :: p :: ps else (b :: p) :: ps
+
+/-- `strconv.ParseUint(s, 10, 64)`: non-empty, decimal digits only, value < 2^64. -/
+def parseUint (bs : Bytes) : Option Nat :=
+  if bs.isEmpty then none else
+  let r := bs.foldl (fun (acc : Option Nat) (b : UInt8) =>
+    match acc with
+    | none => none
+    | some a => if 48 ≤ b ∧ b ≤ 57 then some (a * 10 + (b.toNat - 48)) else none) (some 0)
+  match r with
+  | some v => if v < 2 ^ 64 then some v else none
+  | none => none
+
+structure Ver where
+  major : Nat
+  minor : Nat
+  patch : Nat
+deriving DecidableEq, Repr
+
+/-- `ParseBlockVersion`: empty string is 0.0.0; only the first three dot-separated parts are parsed,
+anything after them is ignored; missing parts are 0. -/
+def parseVersion (v : Bytes) : Option Ver :=
+  if v.isEmpty then some ⟨0, 0, 0⟩ else
+  let parts := splitDots v
+  let get (i : Nat) : Option Nat :=
+    match parts[i]? with
+    | none => some 0
+    | some p => parseUint p
+  match get 0, get 1, get 2 with
+  | some a, some b, some c => some ⟨a, b, c⟩
+  | _, _, _ => none
+
+/-- semver `GreaterThanEqual` without pre-release parts. -/
+def Ver.ge (a b : Ver) : Bool :=
+  a.major > b.major || (a.major == b.major && (a.minor > b.minor || (a.minor == b.minor && a.patch ≥ b.patch)))
+
+def Ver.lt (a b : Ver) : Bool := !(a.ge b)
+
+/-- `CheckBlockVersion`: supported iff major < 0 ∨ (major = 0 ∧ minor ≤ 14) (LatestVer = 0.14.1). -/
+def versionSupported (v : Bytes) : Bool :=
+  match parseVersion v with
+  | none => false
+  | some x => x.major < 0 || (x.major == 0 && x.minor ≤ 14)
+
+/-! ## Records (one per Go struct; every field of the Go struct that any hash reads is present,
+plus a few that no hash reads so that the exceptions can be stated) -/
+
+structure GasPrice where
+  wei : Option Term
+  fri : Option Term
+deriving DecidableEq, Repr, Inhabited
+
+/-- `core.Header` without `EventsBloom` and `Signatures` (read by no hash). -/
+structure Header where
+  hash : Term
+  parentHash : Term
+  number : UInt64
+  stateRoot : Term
+  sequencer : Option Term
+  txCount : UInt64
+  eventCount : UInt64
+  timestamp : UInt64
+  version : Bytes
+  l1GasPriceETH : Term
+  l1GasPriceSTRK : Option Term
+  l1DAMode : Nat
+  l1DataGasPrice : Option GasPrice
+  l2GasPrice : Option GasPrice
+deriving DecidableEq, Repr, Inhabited
+
+/-- `core.ResourceBounds`; `maxPrice = none` is a nil `MaxPricePerUnit`. -/
+structure RB where
+  maxAmount : UInt64
+  maxPrice : Option Nat
+deriving DecidableEq, Repr, Inhabited
+
+/-- the three entries of `map[Resource]ResourceBounds` any hash looks up (keys 1, 2, 3). -/
+structure Bounds where
+  l1Gas : Option RB
+  l2Gas : Option RB
+  l1DataGas : Option RB
+deriving DecidableEq, Repr, Inhabited
+
+structure InvokeTx where
+  hash : Term
+  callData : List Term
+  signature : List Term
+  maxFee : Term
+  contractAddress : Term
+  version : Nat
+  entryPointSelector : Term
+  nonce : Term
+  senderAddress : Term
+  bounds : Bounds
+  tip : UInt64
+  paymasterData : List Term
+  accountDeploymentData : List Term
+  nonceDAMode : UInt32
+  feeDAMode : UInt32
+  proofFacts : List Term
+deriving DecidableEq, Repr, Inhabited
+
+structure DeclareTx where
+  hash : Option Term
+  classHash : Term
+  senderAddress : Term
+  maxFee : Term
+  signature : List Term
+  nonce : Term
+  version : Nat
+  compiledClassHash : Term
+  bounds : Bounds
+  tip : UInt64
+  paymasterData : List Term
+  accountDeploymentData : List Term
+  nonceDAMode : UInt32
+  feeDAMode : UInt32
+deriving DecidableEq, Repr, Inhabited
+
+structure DeployTx where
+  hash : Option Term
+  salt : Term
+  contractAddress : Term
+  classHash : Term
+  ctorCallData : List Term
+  version : Nat
+deriving DecidableEq, Repr, Inhabited
+
+structure DeployAccountTx where
+  hash : Term
+  salt : Term
+  contractAddress : Term
+  classHash : Term
+  ctorCallData : List Term
+  version : Nat
+  maxFee : Term
+  signature : List Term
+  nonce : Term
+  bounds : Bounds
+  tip : UInt64
+  paymasterData : List Term
+  nonceDAMode : UInt32
+  feeDAMode : UInt32
+deriving DecidableEq, Repr, Inhabited
+
+structure L1HandlerTx where
+  hash : Term
+  contractAddress : Term
+  entryPointSelector : Term
+  nonce : Option Term
+  callData : List Term
+  version : Nat
+deriving DecidableEq, Repr, Inhabited
+
+inductive Tx where
+  | invoke (t : InvokeTx)
+  | declare (t : DeclareTx)
+  | deploy (t : DeployTx)
+  | deployAccount (t : DeployAccountTx)
+  | l1Handler (t : L1HandlerTx)
+deriving DecidableEq, Repr, Inhabited
+
+/-- `Transaction.Hash()`; `none` is a nil pointer. -/
+def Tx.hash : Tx → Option Term
+  | .invoke t => some t.hash
+  | .declare t => t.hash
+  | .deploy t => t.hash
+  | .deployAccount t => some t.hash
+  | .l1Handler t => some t.hash
+
+/-- `Transaction.Signature()`: deploy and L1-handler transactions have the empty signature. -/
+def Tx.signature : Tx → List Term
+  | .invoke t => t.signature
+  | .declare t => t.signature
+  | .deploy _ => []
+  | .deployAccount t => t.signature
+  | .l1Handler _ => []
+
+structure Event where
+  «from» : Term
+  keys : List Term
+  data : List Term
+deriving DecidableEq, Repr, Inhabited
+
+/-- `core.L2ToL1Message`; `to` is the 20-byte Ethereum address read as a number. -/
+structure Msg where
+  «from» : Term
+  payload : List Term
+  to : Nat
+deriving DecidableEq, Repr, Inhabited
+
+/-- `core.GasConsumed`. -/
+structure Gas where
+  l1Gas : UInt64
+  l1DataGas : UInt64
+  l2Gas : UInt64
+deriving DecidableEq, Repr, Inhabited
+
+/-- `core.TransactionReceipt`. `totalGas = none`: `ExecutionResources` or its `TotalGasConsumed`
+is nil. `feeUnit`, `steps` (standing for every other execution resource) and `l1ToL2` (standing
+for the `L1ToL2Message`) are read by no hash. -/
+structure Receipt where
+  fee : Term
+  feeUnit : Nat
+  events : List Event
+  totalGas : Option Gas
+  steps : UInt64
+  l1ToL2 : Option Term
+  msgs : List Msg
+  txHash : Term
+  reverted : Bool
+  revertReason : Bytes
+deriving DecidableEq, Repr, Inhabited
+
+/-- A Go map with felt keys is represented by its entries in increasing key order (the order in
+which every digest below walks it, `sortedFeltKeys`). -/
+abbrev FMap := List (Nat × Term)
+
+/-- `core.StateDiff`. -/
+structure StateDiff where
+  storage : List (Nat × FMap)
+  nonces : FMap
+  deployed : FMap
+  declaredV0 : List Nat
+  declaredV1 : FMap
+  replaced : FMap
+  migrated : FMap
+deriving DecidableEq, Repr, Inhabited
+
+structure Block where
+  header : Header
+  txs : List Tx
+  receipts : List Receipt
+deriving DecidableEq, Repr, Inhabited
+
+/-- `networks.Network`: what block and transaction hashes depend on. -/
+structure Net where
+  chainId : Term
+  first07Block : UInt64
+  unverifiable : Option (UInt64 × UInt64)
+  fallbackSeq : Option Term
+deriving DecidableEq, Repr, Inhabited
+
+/-! ## Transaction hashes (`core/transaction.go`) -/
+
+def queryBit : Nat := 2 ^ 128
+
+/-- `TransactionVersion.Is(n)`: equality after dropping the query bit (2^128). -/
+def verIs (v n : Nat) : Bool := (if v ≥ queryBit then v - queryBit else v) == n
+
+/-- `ResourceBounds.Bytes(resource)` read back with `felt.FromBytes`:
+`0x00 ‖ name ‖ amount (8 bytes) ‖ low 16 bytes of the price`. A nil price panics (`none`). -/
+def rbFelt (name : String) (rb : Option RB) : Option Term :=
+  match rb with
+  | none => none
+  | some r =>
+    match r.maxPrice with
+    | none => none
+    | some p => some (.felt (bytesToNat (asciiBytes name) * 2 ^ 192 + r.maxAmount.toNat * 2 ^ 128 + p % 2 ^ 128))
+
+/-- `tipAndResourcesHash`. The L1-data-gas bound is appended only when the map has the key and its
+price is non-nil. -/
+def tipAndResources (tip : UInt64) (b : Bounds) : Option Term :=
+  match rbFelt "L1_GAS" b.l1Gas, rbFelt "L2_GAS" b.l2Gas with
+  | some l1, some l2 =>
+    let extra : List Term :=
+      match b.l1DataGas with
+      | some r => (match r.maxPrice with
+                   | some _ => (match rbFelt "L1_DATA" (some r) with | some t => [t] | none => [])
+                   | none => [])
+      | none => []
+    some (.posN ([u64 tip, l1, l2] ++ extra))
+  | _, _ => none
+
+/-- `dataAvailabilityMode(fee, nonce)`. -/
+def daMode (fee nonce : UInt32) : Nat := fee.toNat + nonce.toNat * 2 ^ 32
+
+def invokeFelt := strFelt "invoke"
+def declareFelt := strFelt "declare"
+def l1HandlerFelt := strFelt "l1_handler"
+def deployAccountFelt := strFelt "deploy_account"
+
+/-- `invokeTransactionHash`; `none` = invalid version error (or nil-pointer panic). -/
+def invokeHash (chain : Term) (i : InvokeTx) : Option Term :=
+  if verIs i.version 0 then
+    some (.pedN [invokeFelt, .felt i.version, i.contractAddress, i.entryPointSelector,
+                 .pedN i.callData, i.maxFee, chain])
+  else if verIs i.version 1 then
+    some (.pedN [invokeFelt, .felt i.version, i.senderAddress, .felt 0, .pedN i.callData, i.maxFee,
+                 chain, i.nonce])
+  else if verIs i.version 3 then
+    match tipAndResources i.tip i.bounds with
+    | none => none
+    | some trb =>
+      let base := [invokeFelt, .felt i.version, i.senderAddress, trb, .posN i.paymasterData, chain,
+                   i.nonce, .felt (daMode i.feeDAMode i.nonceDAMode),
+                   .posN i.accountDeploymentData, .posN i.callData]
+      some (.posN (base ++ (if i.proofFacts.isEmpty then [] else [.posN i.proofFacts])))
+  else none
+
+/-- `declareTransactionHash`. Version 0: the declared hash is returned unverified (computed only
+when it is nil). -/
+def declareHash (chain : Term) (d : DeclareTx) : Option Term :=
+  if verIs d.version 0 then
+    match d.hash with
+    | some h => some h
+    | none => some (.pedN [declareFelt, .felt d.version, d.senderAddress, .felt 0, .pedN [], d.maxFee,
+                           chain, d.classHash])
+  else if verIs d.version 1 then
+    some (.pedN [declareFelt, .felt d.version, d.senderAddress, .felt 0, .pedN [d.classHash], d.maxFee,
+                 chain, d.nonce])
+  else if verIs d.version 2 then
+    some (.pedN [declareFelt, .felt d.version, d.senderAddress, .felt 0, .pedN [d.classHash], d.maxFee,
+                 chain, d.nonce, d.compiledClassHash])
+  else if verIs d.version 3 then
+    match tipAndResources d.tip d.bounds with
+    | none => none
+    | some trb =>
+      some (.posN [declareFelt, .felt d.version, d.senderAddress, trb, .posN d.paymasterData, chain,
+                   d.nonce, .felt (daMode d.feeDAMode d.nonceDAMode), .posN d.accountDeploymentData,
+                   d.classHash, d.compiledClassHash])
+  else none
+
+/-- `l1HandlerTransactionHash`: only version 0; with a nil nonce the declared hash is returned. -/
+def l1HandlerHash (chain : Term) (l : L1HandlerTx) : Option Term :=
+  if verIs l.version 0 then
+    match l.nonce with
+    | none => some l.hash
+    | some n => some (.pedN [l1HandlerFelt, .felt l.version, l.contractAddress, l.entryPointSelector,
+                             .pedN l.callData, .felt 0, chain, n])
+  else none
+
+/-- `deployAccountTransactionHash`: versions 1 and 3. -/
+def deployAccountHash (chain : Term) (d : DeployAccountTx) : Option Term :=
+  if verIs d.version 1 then
+    some (.pedN [deployAccountFelt, .felt d.version, d.contractAddress, .felt 0,
+                 .pedN ([d.classHash, d.salt] ++ d.ctorCallData), d.maxFee, chain, d.nonce])
+  else if verIs d.version 3 then
+    match tipAndResources d.tip d.bounds with
+    | none => none
+    | some trb =>
+      some (.posN [deployAccountFelt, .felt d.version, d.contractAddress, trb, .posN d.paymasterData,
+                   chain, d.nonce, .felt (daMode d.feeDAMode d.nonceDAMode), .posN d.ctorCallData,
+                   d.classHash, d.salt])
+  else none
+
+/-- `core.TransactionHash`. Legacy deploy transactions: the declared hash (zero when nil). -/
+def txHash (chain : Term) : Tx → Option Term
+  | .invoke t => invokeHash chain t
+  | .declare t => declareHash chain t
+  | .deploy t => some (t.hash.getD (.felt 0))
+  | .deployAccount t => deployAccountHash chain t
+  | .l1Handler t => l1HandlerHash chain t
+
+def v0_11_0 : Ver := ⟨0, 11, 0⟩
+def v0_11_1 : Ver := ⟨0, 11, 1⟩
+def v0_13_2 : Ver := ⟨0, 13, 2⟩
+def v0_13_4 : Ver := ⟨0, 13, 4⟩
+
+/-- `VerifyTransactions`: from 0.11.0 on every transaction hash must recompute. -/
+def verifyTransactions (chain : Term) (txs : List Tx) (version : Bytes) : Bool :=
+  match parseVersion version with
+  | none => false
+  | some v =>
+    if v.lt v0_11_0 then true
+    else txs.all (fun t => match txHash chain t, t.hash with
+                           | some c, some h => c == h
+                           | _, _ => false)
+
+/-! ## Commitments -/
+
+/-- leaf of `transactionCommitmentPoseidon0134`: `[hash] ++ signature`. -/
+def txLeaf0134 (t : Tx) : Term := .posN (t.hash.getD (.felt 0) :: t.signature)
+
+/-- leaf of `transactionCommitmentPoseidon0132`: an empty signature is hashed as `[0]`. -/
+def txLeaf0132 (t : Tx) : Term :=
+  .posN (t.hash.getD (.felt 0) :: (if t.signature.isEmpty then [.felt 0] else t.signature))
+
+/-- leaf of `transactionCommitmentPedersen` (≥ 0.11.1: every signature; before: invoke only). -/
+def txLeafPedersen (allSigs : Bool) (t : Tx) : Term :=
+  let sig : List Term := if allSigs then t.signature else (match t with | .invoke i => i.signature | _ => [])
+  .ped (t.hash.getD (.felt 0)) (.pedN sig)
+
+/-- leaf of `eventCommitmentPoseidon`; `txHash` is the hash recorded in the receipt. -/
+def eventLeaf (txHash : Term) (e : Event) : Term :=
+  .posN ([e.from, txHash, len e.keys] ++ e.keys ++ [len e.data] ++ e.data)
+
+def eventLeafPedersen (e : Event) : Term := .pedN [e.from, .pedN e.keys, .pedN e.data]
+
+def eventLeaves (rs : List Receipt) : List Term :=
+  rs.flatMap (fun r => r.events.map (eventLeaf r.txHash))
+
+def eventLeavesPedersen (rs : List Receipt) : List Term :=
+  rs.flatMap (fun r => r.events.map eventLeafPedersen)
+
+def msgFlat (m : Msg) : List Term := [m.from, .felt m.to, len m.payload] ++ m.payload
+
+/-- `messagesSentHash`. -/
+def msgsHash (ms : List Msg) : Term := .posN (len ms :: ms.flatMap msgFlat)
+
+/-- `TransactionReceipt.hash`. L2 gas is hard-wired to zero. -/
+def receiptHash (r : Receipt) : Term :=
+  let g : Gas := r.totalGas.getD ⟨0, 0, 0⟩
+  .posN [r.txHash, r.fee, msgsHash r.msgs,
+         (if r.reverted then .keccak r.revertReason else .felt 0),
+         .felt 0, u64 g.l1Gas, u64 g.l1DataGas]
+
+/-! ## State diff (`core/state_update.go`) -/
+
+def flatPairs (m : FMap) : List Term := m.flatMap (fun kv => [.felt kv.1, kv.2])
+
+/-- insert with override into a key-sorted list (`maps.Copy` into the merged map). -/
+def insertKV (k : Nat) (v : Term) : FMap → FMap
+  | [] => [(k, v)]
+  | (k', v') :: rest =>
+    if k < k' then (k, v) :: (k', v') :: rest
+    else if k = k' then (k, v) :: rest
+    else (k', v') :: insertKV k v rest
+
+/-- `updatedContracts`: deployed entries overridden by replaced entries, in key order. -/
+def updatedContracts (d : StateDiff) : FMap := d.replaced.foldl (fun acc kv => insertKV kv.1 kv.2 acc) d.deployed
+
+def insertNat (k : Nat) : List Nat → List Nat
+  | [] => [k]
+  | k' :: rest => if k ≤ k' then k :: k' :: rest else k' :: insertNat k rest
+
+/-- `slices.SortFunc` by felt order. -/
+def sortNat (xs : List Nat) : List Nat := xs.foldr insertNat []
+
+def lookup (k : Nat) : FMap → Option Term
+  | [] => none
+  | (k', v) :: rest => if k = k' then some v else lookup k rest
+
+/-- `declaredClassesDigest`: keys of both maps sorted together (a key present in both appears
+twice); each key emits the declared compiled hash if it is a declared class, else the migrated one. -/
+def declaredPairs (d : StateDiff) : FMap :=
+  (sortNat (d.declaredV1.map (·.1) ++ d.migrated.map (·.1))).map (fun k =>
+    match lookup k d.declaredV1 with
+    | some h => (k, h)
+    | none => (k, (lookup k d.migrated).getD (.felt 0)))
+
+def storageFlat (s : List (Nat × FMap)) : List Term :=
+  s.flatMap (fun e => [.felt e.1, len e.2] ++ flatPairs e.2)
+
+/-- the flat list a `StateDiff.Hash()` digest absorbs. -/
+def stateDiffFlat (d : StateDiff) : List Term :=
+  [strFelt "STARKNET_STATE_DIFF0"]
+  ++ [.felt (d.deployed.length + d.replaced.length)] ++ flatPairs (updatedContracts d)
+  ++ [.felt (d.declaredV1.length + d.migrated.length)] ++ flatPairs (declaredPairs d)
+  ++ [len d.declaredV0] ++ (sortNat d.declaredV0).map .felt
+  ++ [.felt 1, .felt 0]
+  ++ [len d.storage] ++ storageFlat d.storage
+  ++ [len d.nonces] ++ flatPairs d.nonces
+
+def stateDiffHash (d : StateDiff) : Term := .posN (stateDiffFlat d)
+
+/-- `StateDiff.Length()`. -/
+def stateDiffLength (d : StateDiff) : Nat :=
+  (d.storage.map (fun e => e.2.length)).sum + d.nonces.length + d.deployed.length + d.declaredV0.length
+  + d.declaredV1.length + d.replaced.length + d.migrated.length
+
+/-! ## Block hash (`core/block.go`) -/
+
+/-- `ConcatCounts` as the 256-bit big-endian number of
+`txCount(8) ‖ eventCount(8) ‖ stateDiffLen(8) ‖ daByte ‖ 0^7`; the DA bit is set iff mode = Blob (1). -/
+def concatCounts (tx ev sd : UInt64) (da : Nat) : Nat :=
+  tx.toNat * 2 ^ 192 + ev.toNat * 2 ^ 128 + sd.toNat * 2 ^ 64 + (if da = 1 then 2 ^ 63 else 0)
+
+def sdLen64 (d : StateDiff) : UInt64 := UInt64.ofNat (stateDiffLength d)
+
+inductive Format | pre07 | post07 | v0132 | v0134
+deriving DecidableEq, Repr, Inhabited
+
+/-- the dispatch of `core.BlockHash`. -/
+def dispatch (net : Net) (number : UInt64) (version : Bytes) : Option Format :=
+  match parseVersion version with
+  | none => none
+  | some v =>
+    if v.ge v0_13_4 then some .v0134
+    else if v.ge v0_13_2 then some .v0132
+    else if number < net.first07Block then some .pre07
+    else some .post07
+
+def commonPrefix (tag : String) (h : Header) (seq : Term) (sd : StateDiff) (txLeaf : Tx → Term)
+    (b : Block) : List Term :=
+  [strFelt tag, u64 h.number, h.stateRoot, seq, u64 h.timestamp,
+   .felt (concatCounts h.txCount h.eventCount (sdLen64 sd) h.l1DAMode),
+   stateDiffHash sd, .comm .pos (b.txs.map txLeaf), .comm .pos (eventLeaves b.receipts),
+   .comm .pos (b.receipts.map receiptHash)]
+
+/-- `post0134Hash`; nil sequencer / STRK price / data-gas / L2-gas prices panic (`none`). -/
+def post0134 (b : Block) (sd : StateDiff) : Option Term :=
+  let h := b.header
+  match h.sequencer, h.l1GasPriceSTRK, h.l1DataGasPrice, h.l2GasPrice with
+  | some seq, some strk, some dg, some l2 =>
+    match dg.wei, dg.fri, l2.wei, l2.fri with
+    | some dw, some df, some lw, some lf =>
+      let prices : Term := .posN [strFelt "STARKNET_GAS_PRICES0", h.l1GasPriceETH, strk, dw, df, lw, lf]
+      some (.posN (commonPrefix "STARKNET_BLOCK_HASH1" h seq sd txLeaf0134 b
+                   ++ [prices, .felt (bytesToNat h.version), .felt 0, h.parentHash]))
+    | _, _, _, _ => none
+  | _, _, _, _ => none
+
+/-- `Post0132Hash`; nil sequencer / STRK price / data-gas prices are hashed as zero; the L2 gas
+price is not part of this format. -/
+def post0132 (b : Block) (sd : StateDiff) : Option Term :=
+  let h := b.header
+  let z : Term := .felt 0
+  let dw := (h.l1DataGasPrice.bind (·.wei)).getD z
+  let df := (h.l1DataGasPrice.bind (·.fri)).getD z
+  some (.posN (commonPrefix "STARKNET_BLOCK_HASH0" h (h.sequencer.getD z) sd txLeaf0132 b
+               ++ [h.l1GasPriceETH, h.l1GasPriceSTRK.getD z, dw, df, .felt (bytesToNat h.version), .felt 0,
+                   h.parentHash]))
+
+def pedTxComm (b : Block) : Option Term :=
+  match parseVersion b.header.version with
+  | none => none
+  | some v => some (.comm .ped (b.txs.map (txLeafPedersen (v.ge v0_11_1))))
+
+/-- `post07Hash` with the sequencer-address override of `VerifyBlockHash`. -/
+def post07 (b : Block) (overrideSeq : Option Term) : Option Term :=
+  let h := b.header
+  match pedTxComm b, (match overrideSeq with | some s => some s | none => h.sequencer) with
+  | some txc, some seq =>
+    some (.pedN [u64 h.number, h.stateRoot, seq, u64 h.timestamp, u64 h.txCount, txc, u64 h.eventCount,
+                 .comm .ped (eventLeavesPedersen b.receipts), .felt 0, .felt 0, h.parentHash])
+  | _, _ => none
+
+/-- `pre07Hash`. -/
+def pre07 (b : Block) (chain : Term) : Option Term :=
+  let h := b.header
+  match pedTxComm b with
+  | some txc =>
+    some (.pedN [u64 h.number, h.stateRoot, .felt 0, .felt 0, u64 h.txCount, txc, .felt 0, .felt 0, .felt 0,
+                 .felt 0, chain, h.parentHash])
+  | none => none
+
+/-- `core.BlockHash`. -/
+def blockHash (net : Net) (b : Block) (sd : StateDiff) (overrideSeq : Option Term) : Option Term :=
+  match dispatch net b.header.number b.header.version with
+  | none => none
+  | some .v0134 => post0134 b sd
+  | some .v0132 => post0132 b sd
+  | some .pre07 => pre07 b net.chainId
+  | some .post07 => post07 b overrideSeq
+
+end Juno.C02
